@@ -65,7 +65,7 @@ func checkC19(c *Ctx, p *Prog, r *Result) {
 						}
 					}
 				case *ssa.MapUpdate:
-					if pv := m.Prov(x.Map); pv.HasPrefix("global:fdo") && !pv.HasPrefix("param:") && !pv.HasPrefix("call:") {
+					if pv := m.Prov(x.Map); pv.HasPrefixLocal("global:fdo") && !pv.HasPrefixLocal("param:") && !pv.HasPrefixLocal("call:") {
 						bad = append(bad, "map update of a package-level map at "+p.instrPos(in))
 					}
 				}
